@@ -17,9 +17,10 @@ def under_test(v, fam):
     return (v["ra"], v["rv"]) if fam == "res" else (v["pa"], v["pv"])
 
 
-def judge(ctx, fam, cases, ex, nontrivial, stats):
+def judge(ctx, fam, cases, ex, nontrivial, stats, also=()):
     """Oracle judgement (what the design promises) of every case; mismatches are named after the recorded
-    deviation that reproduces them exactly, else after the failing case."""
+    deviation that reproduces them exactly, else after the failing case.  `also`: vectors the explainer will be
+    asked about later (trace validation) - handed to the same TLC run."""
     pending = []
     for c in cases:
         v = c["v"]
@@ -30,7 +31,9 @@ def judge(ctx, fam, cases, ex, nontrivial, stats):
             nontrivial.add(core.canon([fam, gg.shape_of(v), v["pv"], v["rv"], c.get("sent"), c.get("rsent")]))
         problems = []
         if c["accepted"] != al["accept"]:
-            if c["accepted"]:
+            if c["accepted"] and (gg.inexpressible(v["pa"]) or gg.inexpressible(v["ra"])):
+                problems.append(("eval/accepted-inexpressible-design", "a design with a list / map as OneOf member (no proto3 counterpart) was accepted"))
+            elif c["accepted"]:
                 problems.append(("eval/accepted-unnumbered-design", "design with tagmode %s accepted" % v["tagmode"]))
             else:
                 problems.append(("eval/refused-valid-design", "eval errors: %s" % json.dumps(c["evalErrors"])[:300]))
@@ -52,7 +55,7 @@ def judge(ctx, fam, cases, ex, nontrivial, stats):
         elif ctx.cov["evaluations"] % 2500 == 1:
             ctx.sample({"fam": fam, "shape": gg.shape_of(v), "pv": v["pv"], "rv": v["rv"], "table": c["table"],
                         "observed": {k: (c["obs"] or {}).get(k) for k in ("where", "delivered", "invoked", "errname", "rwhere", "returned", "cerr")}})
-    ex.prepare([c["v"] for c, _ in pending])
+    ex.prepare([c["v"] for c, _ in pending] + list(also))
     for c, problems in pending:
         v = c["v"]
         a, val = under_test(v, fam)
@@ -72,9 +75,8 @@ def known_deviations(ctx):
     return sorted(out)
 
 
-def validate_traces(ctx, fam, cases, ex, label, selftest=False):
-    """(J) the cases as one batch trace. Each case declares the deviations under which the mechanism of the model
-    does exactly what was recorded ([] for almost all); the trace specification only lets recorded findings be declared."""
+def trace_need(cases):
+    """the cases in which the real code did not do what the mechanism of the model does without any deviation"""
     need = []
     for c in cases:
         if gc.trace_events(c, []) is None:
@@ -83,6 +85,13 @@ def validate_traces(ctx, fam, cases, ex, label, selftest=False):
         base = gc.mech_sig(c["v"])
         if any(base.get(k) != want.get(k) for k in set(base) | set(want)):
             need.append(c)
+    return need
+
+
+def validate_traces(ctx, fam, cases, ex, label, selftest=False, depth="2"):
+    """(J) the cases as one batch trace. Each case declares the deviations under which the mechanism of the model
+    does exactly what was recorded ([] for almost all); the trace specification only lets recorded findings be declared."""
+    need = trace_need(cases)
     ex.prepare([c["v"] for c in need])
     needed = {c["id"] for c in need}
     lines, owner = [], []
@@ -103,7 +112,7 @@ def validate_traces(ctx, fam, cases, ex, label, selftest=False):
     path = os.path.join(d, "trace.ndjson")
     open(path, "w").write("\n".join(lines) + "\n")
     known = known_deviations(ctx)
-    consts = {"Family": '"%s"' % fam, "Deviations": "{" + ", ".join('"%s"' % k for k in known) + "}"}
+    consts = {"Family": '"%s"' % fam, "Deviations": "{" + ", ".join('"%s"' % k for k in known) + "}", "PathDepth": depth}
     ok, hwm, r = ctx.trace_validate("trace/Trace_GRPCTransport", "trace/Trace_GRPCTransport.cfg", path, consts=consts, label="trace " + label, timeout=1500)
     ntr = sum(1 for ln in lines if '"ev": "reset"' in ln)
     ctx.log("TRACE %-20s %6d events %5d cases  accepted=%s hwm=%s  %.1fs" % (label, len(lines), ntr, ok, hwm, r.wall))
@@ -168,12 +177,16 @@ def run(ctx):
     frac = float(os.environ.get("VERIF_FRAC") or (0.09 if quick else 1.0))
     fams = (os.environ.get("VERIF_FAMS") or "wf,xm,req,res").split(",")
     selftest = ctx.selftest or not quick
-    # (M) vacuity: with each named deviation the model violates the property
-    for d in gc.DEVIATIONS:
-        ctx.mc_expect_violation("mc/MC_GRPCTransport", consts={"Deviations": '{"%s"}' % d, "Family": '"%s"' % gc.DEV_FAMILY[d]}, label="MC dev " + d)
+    depth = os.environ.get("VERIF_PATHDEPTH") or ("2" if quick else "3")      # PathDepth of GRPCTransport.tla
+    # (M) vacuity: with each named deviation the model violates the property (independent TLC runs, side by side)
+    import concurrent.futures as cf
+    with cf.ThreadPoolExecutor(max_workers=4) as pool:
+        for f in [pool.submit(ctx.mc_expect_violation, "mc/MC_GRPCTransport", consts={"Deviations": '{"%s"}' % d, "Family": '"%s"' % gc.DEV_FAMILY[d], "PathDepth": depth},
+                              label="MC dev " + d, workers=2) for d in gc.DEVIATIONS]:
+            f.result()
     for fam in fams:
         # (M)+(G): one TLC run checks the invariants over the whole family and emits the cases
-        vectors = gc.gen_vectors(ctx, fam)
+        vectors = gc.gen_vectors(ctx, fam, depth=depth)
         if fam in ("req", "res"):
             vectors = gc.sample_shapes(vectors, frac, ctx.seed)
         family = gc.Family(ctx, fam, vectors)
@@ -181,10 +194,12 @@ def run(ctx):
         for i, f in sorted(pl.failed.items())[:20]:
             if f[0] not in ("eval",):
                 ctx.notes.append("%s design d%d not usable: %s" % (fam, i, str(f)[:200]))
-        judge(ctx, fam, cases, gc.Explainer(ctx, fam), nontrivial, stats)
-        # (J) trace validation of what was recorded
+        # one explainer per family: a case is put to TLC once, whoever asks about it (judgement, trace validation, random mode)
+        ex = gc.Explainer(ctx, fam, depth=depth)
         tr = cases if len(cases) <= 2500 else random.Random(ctx.seed).sample(cases, 2500)
-        validate_traces(ctx, fam, tr, gc.Explainer(ctx, fam), fam, selftest=selftest and fam in ("wf", "xm", "req"))
+        judge(ctx, fam, cases, ex, nontrivial, stats, also=[c["v"] for c in trace_need(tr)])
+        # (J) trace validation of what was recorded
+        validate_traces(ctx, fam, tr, ex, fam, selftest=selftest and fam in ("wf", "xm", "req"), depth=depth)
         ctx.cov["designs_" + fam] = len(pl.designs)
         ctx.cov["designs_failed_" + fam] = len(pl.failed)
         # (J) random mode: other members of the value classes, judged by the oracle and validated as a trace
@@ -194,8 +209,8 @@ def run(ctx):
             pool = [v for v in vectors if not hg.is_absent(under_test(v, fam)[1])]
             rv = rng.sample(pool, min(n, len(pool)))
             rcases = family.run(rv, rng=rng, prefix="r")
-            judge(ctx, fam, rcases, gc.Explainer(ctx, fam), nontrivial, stats)
-            validate_traces(ctx, fam, rcases, gc.Explainer(ctx, fam), fam + "-random")
+            judge(ctx, fam, rcases, ex, nontrivial, stats, also=[c["v"] for c in trace_need(rcases)])
+            validate_traces(ctx, fam, rcases, ex, fam + "-random", depth=depth)
     ctx.cov["distinct_nontrivial"] = len(nontrivial)
     ctx.cov["cases_run_in_process"] = stats["ran"]
     ctx.cov["cases_run_by_location"] = stats["ran_by_loc"]
